@@ -332,7 +332,11 @@ type GPlugin struct {
 	Impl *Impl
 }
 
+// InitDelay makes the registration hooks of both flavours take that long (a plugin with slow start-up work).
+var InitDelay time.Duration
+
 func (p *GPlugin) GRPCServer(b *plugin.GRPCBroker, s *grpc.Server) error {
+	time.Sleep(InitDelay)
 	grpctest.RegisterTestServer(s, &GRPCServer{Impl: p.Impl, Broker: b})
 	grpctest.RegisterPingPongServer(s, bigPong{impl: p.Impl})
 	return nil
